@@ -320,6 +320,12 @@ def rel_queries(db, prop):
     only = set(os.environ['VERIF_ONLY'].split(',')) if os.environ.get('VERIF_ONLY') else None
     KERNELS = ['decay0_gamma', 'decay0_electron', 'decay0_positron', 'decay0_alpha', 'decay0_pair', 'decay0_nucltransK',
                'decay0_nucltransKL', 'decay0_nucltransKLM', 'decay0_nucltransKLM_Pb', 'PbAtShell']
+    if prop == 'C01' and not only:
+        try:
+            q = rel.build_leaf_query(db, prog, propid='C01')
+            qs.append(Query('rel/leaf', q['c'], checks=['--no-standard-checks', '--bounds-check', '--pointer-check'], meta=q['meta'], timeout=600))
+        except (bx2c.Unsupported, f77c.Unsupported) as e:
+            skipped.append(('randomize_particle', 'NOT COVERED: ' + str(e)[:300]))
     cands = sorted(l3.l3_routines(db).items()) + [(k, 'kernel') for k in KERNELS if k in db['funcs']]
     for name, kind in cands:
         if only and name not in only:
@@ -383,6 +389,24 @@ def genbb_queries(db, prop, known):
                 continue
             qs.append(Query('genbbsub/c05/%s' % name, q['c'], checks=['--no-standard-checks', '--bounds-check', '--pointer-check'],
                             meta=q['meta'], timeout=600, extra=('--unwind', '20', '--object-bits', '12')))
+        # double-beta names: primary process + daughter cascade (+ documented alpha chain); C03 tie level table <-> cascade
+        rd = genbb.readme_dbd()
+        ids2 = {}
+        for pass_ in (0, 1):
+            for name in dbd:
+                if only and name not in only:
+                    continue
+                daughter, chain = rd.get(name, (None, None))
+                try:
+                    q = genbb.build_c05_dbd_query(db, name, daughter, chain, ids2)
+                except (bx2c.Unsupported, KeyError, TypeError) as e:
+                    if pass_ == 1:
+                        skipped.append((name, 'NOT COVERED: ' + str(e)[:300]))
+                    continue
+                if pass_ == 1:
+                    q['meta']['what'] = 'c05'
+                    qs.append(Query('genbbsub/c05dbd/%s' % name, q['c'], checks=['--no-standard-checks', '--bounds-check', '--pointer-check'],
+                                    meta=q['meta'], timeout=900, mem_gb=20, extra=('--unwind', '20', '--object-bits', '12')))
     return qs, skipped
 
 
@@ -410,6 +434,9 @@ def catalogue_obligations(db):
     out.append(('every name tested by genbbsub is a published name', not unknown, unknown))
     missing = sorted(h for h in heads if not any(h.startswith(l) for l in set(lits)))
     out.append(('every published name is tested by genbbsub', not missing, missing))
+    rdd = genbb.readme_dbd()
+    nod = sorted('%s -> %s' % (k, v[0]) for k, v in rdd.items() if not v[1] and (v[0] is None or (v[0] + 'low') not in db['funcs']))
+    out.append(('the daughter nuclide README Appendix 1 gives for each double-beta isotope has a cascade routine', not nod, nod))
     return out
 
 
@@ -654,6 +681,11 @@ def prop_l3(prop, tier, seed):
             queries = []
         queries += qs
         skipped += sk
+        if prop == 'C03':
+            # the level table of genbbsub only hands a cascade levels that the cascade releases (assertions "C03 ..." in
+            # the double-beta dispatch queries)
+            gq, sk = genbb_queries(db, 'C05', known)
+            queries += [q for q in gq if q.qid.startswith('genbbsub/c05dbd/')]
         if prop == 'C03' and tier == 'thorough':
             queries += evis_queries(db, contracts, consts)
     results = run_all(queries)
